@@ -533,6 +533,8 @@ class Ctx:
                 return x.t
             if hasattr(x, "t") and z3.is_expr(x.t):
                 return x.t
+            if type(x).__name__ in ("ListView", "DictView") and x.raw is not None:
+                return self.to_val(x.raw).t        # a display seen through a spec view: the display's own (interned) identity
             return self.to_val(x).t
 
         ev = Event.ev(z3.IntVal(self.E.event_kind(kind)), tv(a), tv(b), tv(c), tv(d))
@@ -663,6 +665,11 @@ class Ctx:
         for test, new in ((Z.is_strv, TStr()), (Z.is_numv, TNum()), (Z.is_boolv, TBool()), (Z.is_none, TNone())):
             if not self.feasible(z3.Not(test(sv.t))):
                 return SV(sv.t, new)
+        for cls, f in self.ghost.get(("narrow", z3.simplify(sv.t).sexpr()), []):
+            if isinstance(cls, ClassInfo) and not self.feasible(z3.Not(f)):
+                # an isinstance test against an in-repo class succeeded on this path: the value has (at least) that class's shape
+                shape = self.E.shared_types.get("cls:" + cls.key) or TObj(cls.key)
+                return SV(sv.t, self.resolve_ty(shape))
         return sv
 
     def isa_formula(self, cidt, cls):
